@@ -19,14 +19,17 @@ class ExtractionBroken(Exception):
 class Source:
     """A repo file with a comment/string mask so that brace matching is syntax aware."""
 
-    def __init__(self, relpath):
+    def __init__(self, relpath, text=None):
         self.relpath = relpath
         self.path = os.path.join(REPO, relpath)
-        try:
-            with open(self.path, encoding="utf-8", errors="replace") as f:
-                self.text = f.read()
-        except OSError as e:
-            raise ExtractionBroken(f"{relpath}: cannot read ({e})")
+        if text is not None:
+            self.text = text
+        else:
+            try:
+                with open(self.path, encoding="utf-8", errors="replace") as f:
+                    self.text = f.read()
+            except OSError as e:
+                raise ExtractionBroken(f"{relpath}: cannot read ({e})")
         self.mask = _mask(self.text)
 
     # -- primitives -----------------------------------------------------------------
@@ -310,3 +313,55 @@ def strip_labels(clause_text):
 
 def sha(text):
     return hashlib.sha256(text.encode()).hexdigest()
+
+
+def lower_if_init(sl, required=True):
+    """Rule L8: `if (D; C) S [else ...]` -> `{ D; if (C) S [else ...] }` (innermost first)."""
+    count = 0
+    while True:
+        ts = Source("<slice:%s>" % sl.name, text=sl.text)
+        found = None
+        for m in re.finditer(r"\bif\s*\(", ts.text):
+            if ts.mask[m.start()] != "c":
+                continue
+            p = m.end() - 1
+            pe = ts.match_brace(p)
+            inner = ts.text[p + 1:pe - 1]
+            # top-level ';' inside the parentheses?
+            depth = 0
+            semi = None
+            for i, ch in enumerate(inner):
+                if ts.mask[p + 1 + i] != "c":
+                    continue
+                if ch in "([{":
+                    depth += 1
+                elif ch in ")]}":
+                    depth -= 1
+                elif ch == ";" and depth == 0:
+                    semi = i
+                    break
+            if semi is not None:
+                found = (m.start(), p, pe, inner[:semi], inner[semi + 1:])
+        if not found:
+            break
+        s, p, pe, init, cond = found
+        end = _if_end(ts, s)
+        sl.text = ts.text[:s] + "{ " + init.strip() + "; if (" + cond.strip() + ")" + ts.text[pe:end] + " }" + ts.text[end:]
+        count += 1
+    sl.rules["L8:if-with-initialiser"] = sl.rules.get("L8:if-with-initialiser", 0) + count
+    if required and count == 0:
+        raise ExtractionBroken(f"slice {sl.name}: rule L8 fired 0 times")
+    return sl
+
+
+def rename_self_calls(sl, fname, pattern=None, minimum=1, rule="L12:self-call->contract"):
+    """Rule L12: calls of `fname` inside the function body are renamed to fname__contract."""
+    head, body = sl.text.split("{", 1)
+    rx = pattern or (r"\b%s\(" % re.escape(fname))
+    n = len(re.findall(rx, body))
+    if n < minimum:
+        raise ExtractionBroken(f"slice {sl.name}: expected >= {minimum} call(s) of {fname}, found {n}")
+    body = re.sub(rx, lambda m: m.group(0).replace(fname, fname + "__contract"), body)
+    sl.text = head + "{" + body
+    sl.rules[rule + ":" + fname] = n
+    return sl
